@@ -226,24 +226,44 @@ def run(ctx, rep):
     rep.ob("R15.4", "AsyncResult.expired: ready wins over expiry", oke, "`%s`" % A.src(re_[0].value) if oke else
            "expired is `%s`, not (not ready and deadline passed)" % (A.src(re_[0].value) if re_ else None), fe.loc, kind="table")
     fr = ctx.func(AR + ".ready")
-    gr = ctx.cfg(fr)
-    domr = Q.dominators(gr)
-    polls = [n for n in gr.live if n.kind == "stmt" and n.ast is not None and (
-        A.find_calls(n.ast, "self._conn.poll_all") or A.find_calls(n.ast, "self._conn.serve") or A.find_calls(n.ast, "self._conn.poll"))]
-    okp = bool(polls)
-    for pn in polls:
-        c = {A.src(x.ast): pol for x, pol in Q.dominating_conditions(gr, pn, domr)}
-        okp = okp and c.get("self._is_ready") is False and c.get("self.%s.expired()" % TTL) is False
-    rep.ob("R15.4", "AsyncResult.ready: never serves once ready or expired", okp,
-           "poll_all() only when not ready and not expired" if okp else "ready polls the connection although ready/expired", fr.loc)
-    outs = []
-    for n in gr.live:
-        if n.kind == "stmt" and isinstance(n.ast, ast.Return):
-            c = {A.src(x.ast): pol for x, pol in Q.dominating_conditions(gr, n, domr)}
-            outs.append((A.src(n.ast.value), c.get("self._is_ready"), c.get("self.%s.expired()" % TTL)))
-    okro = ("True", True, None) in outs and ("False", False, True) in outs and ("self._is_ready", False, False) in outs
-    rep.ob("R15.4", "AsyncResult.ready: True if ready, False if expired, else the flag after polling", okro,
-           "three return sites with the expected guards" if okro else "ready returns %s" % outs, fr.loc)
+    rep.analysed(fr)
+    # model evaluation of the `ready` property: (flag, deadline passed, does polling deliver the reply)
+    bad_r, bad_p = [], []
+    try:
+        for flag in (False, True):
+            for expd in (False, True):
+                for arrives in (False, True):
+                    try:
+                        state = fresh_result()[0]
+                    except (MI.Raised, AnalysisError):
+                        state = {}
+                    state.update({"_is_ready": flag, TTL: "TTL", "_conn": "CONN"})
+                    polled = []
+
+                    def poll(*a, state=state, polled=polled, arrives=arrives):
+                        polled.append(a)
+                        if arrives:
+                            state["_is_ready"] = True
+                    hooks = {"self._conn.poll_all": poll, "self._conn.serve": poll, "self._conn.poll": poll,
+                             "self.%s.expired" % TTL: lambda expd=expd: expd}
+                    try:
+                        got = MI.call_method(fr.node, state, [], {"__calls__": hooks, "__methods__": meths, "__max_iter__": 50})
+                    except MI.Raised as r_:
+                        got = "raises " + r_.name
+                    want = True if flag else False if expd else arrives
+                    if got is not want:
+                        bad_r.append("flag=%s, deadline passed=%s, reply arrives while polling=%s: ready is %r, expected %r" % (
+                            flag, expd, arrives, got, want))
+                    want_polls = 0 if (flag or expd) else 1
+                    if len(polled) != want_polls:
+                        bad_p.append("flag=%s, deadline passed=%s: polls the connection %d time(s), expected %d" % (
+                            flag, expd, len(polled), want_polls))
+    except AnalysisError as e_:
+        rep.undecided("R15.4", "AsyncResult.ready model", str(e_))
+    rep.ob("R15.4", "AsyncResult.ready: never serves once ready or expired", not bad_p,
+           "poll_all() only when not ready and not expired (8 states)" if not bad_p else "; ".join(bad_p[:2]), fr.loc, kind="table")
+    rep.ob("R15.4", "AsyncResult.ready: True if ready, False if expired, else the flag after polling", not bad_r,
+           "8 states agree" if not bad_r else "; ".join(bad_r[:2]), fr.loc, kind="table")
 
     # ------------------------------------------------------------------ R15.5
     T = "rpyc.lib.Timeout"
